@@ -45,7 +45,7 @@ def starset_contract(acc, ss, crys, chem, spec, tag):
     acc.check(ok and len(ss.index) == ss.Nstates, 'index-lookups-consistent', tag, sig=sig + ('index',))
 
 
-def snapshot(ss): return (tuple(ss.states), tuple(tuple(s) for s in ss.stars), ss.Nstates, ss.Nstars, ss.Nshells, tuple(ss.index))
+def snapshot(ss): return (tuple(ss.states), tuple(tuple(s) for s in ss.stars), ss.Nstates, ss.Nstars, ss.Nshells, tuple(ss.index), frozenset(ss.indexdict.items()), tuple(ss.jumplist))
 
 
 def w_starset(arg):
